@@ -15,7 +15,7 @@ core.use_repo()
 RULE = ("(1) EXHAUSTIVE sweep: every Unicode code point (and, for the single-byte encodings, every byte) that the repository's input "
         "filter accepts and the encoding can represent, at four positions (c, ac, cb, acb) plus space-padded variants, is written "
         "by the real calculate_and_save_counter and read back by the real guesser loader and the real scorer loader, in batches with "
-        "bisection on mismatch. (2) Hypothesis-generated training lists x 5 encodings through the real trainer: value -> probability "
+        "bisection on mismatch; files of 999..10001 lines are round-tripped as well. (2) Hypothesis-generated training lists x 5 encodings through the real trainer: value -> probability "
         "computed from the trainer's own counters must equal the flattened groups of the real PcfgGrammar and the real "
         "PCFGPasswordScorer tables (exact float equality - the writer uses repr); base structures likewise; the trainer's OMEN "
         "IP/CP/LN levels and alphabet must equal what the guesser's load_rules and the scorer's OmenScorer load; config.ini file "
